@@ -12,7 +12,7 @@
 
 use crate::gen::{self, SpecBounds};
 use crate::json::J;
-use crate::obs::guard;
+use crate::obs::{guard, Caught};
 use crate::prng::{hash_str, mix, Rng};
 use crate::runner::{Case, PropDef};
 use crate::spec::{Spec, Ty, CRC_ID, PP, VOID_ID};
@@ -381,7 +381,10 @@ pub fn interpret(tokens: proc_macro2::TokenStream, enum_name: &str) -> Generated
                     let name = m.sig.ident.to_string();
                     if name == "get_raw_tag" {
                         let body = quote::ToTokens::to_token_stream(&m.block).to_string().replace(' ', "");
-                        g.raw_ctor_ok = body.contains("::RawTag(id,data.to_vec())");
+                        g.raw_ctor_ok = ["RawTag(id,data.to_vec())", "RawTag(id,data.to_owned())", "RawTag(id,data.into())", "RawTag(id,Vec::from(data))"].iter().any(|x| strip_paths(&body).contains(x));
+                        if !g.raw_ctor_ok {
+                            g.problems.push("get_raw_tag: body not recognised".into());
+                        }
                         continue;
                     }
                     let arms = match match_arms(&m.block) {
@@ -479,6 +482,32 @@ pub fn interpret(tokens: proc_macro2::TokenStream, enum_name: &str) -> Generated
 
 const CTOR_OF: [(Ty, &str, &str); 6] = [(Ty::U, "get_unsigned_int_tag", "as_unsigned_int"), (Ty::I, "get_signed_int_tag", "as_signed_int"), (Ty::S, "get_utf8_tag", "as_utf8"), (Ty::B, "get_binary_tag", "as_binary"), (Ty::F, "get_float_tag", "as_float"), (Ty::Master, "get_master_tag", "as_master")];
 
+/// A type or expression text with every path prefix removed (`::std::vec::Vec<u8>` -> `Vec<u8>`): how the generated code
+/// spells a path is its own business.
+fn strip_paths(s: &str) -> String {
+    let mut out = String::new();
+    let mut word = String::new();
+    let cs: Vec<char> = s.chars().filter(|c| !c.is_whitespace()).collect();
+    let mut i = 0;
+    while i < cs.len() {
+        let ch = cs[i];
+        if ch.is_alphanumeric() || ch == '_' {
+            word.push(ch);
+            i += 1;
+        } else if ch == ':' && i + 1 < cs.len() && cs[i + 1] == ':' {
+            word.clear(); // drop the segment before `::` (and a leading `::`)
+            i += 2;
+        } else {
+            out.push_str(&word);
+            word.clear();
+            out.push(ch);
+            i += 1;
+        }
+    }
+    out.push_str(&word);
+    out
+}
+
 fn field_type_of(t: Ty, enum_name: &str) -> String {
     match t {
         Ty::Master => format!("ebml_iterable::specs::Master<{}>", enum_name),
@@ -528,7 +557,7 @@ pub fn compare(d: &Decl, g: &Generated) -> (u64, Vec<(String, String)>) {
         }
         arms += 1;
         let want_field = field_type_of(*ty, &d.name);
-        if g.variants.get(name) != Some(&want_field) {
+        if g.variants.get(name).map(|x| strip_paths(x)) != Some(strip_paths(&want_field)) {
             p.push(("variant-field".into(), format!("variant {} has field `{:?}`, expected `{}`", name, g.variants.get(name), want_field)));
         }
     }
@@ -545,7 +574,7 @@ pub fn compare(d: &Decl, g: &Generated) -> (u64, Vec<(String, String)>) {
     }
     // raw tag
     arms += 3;
-    if g.variants.get("RawTag").map(|s| s.as_str()) != Some("u64,::std::vec::Vec<u8>") {
+    if g.variants.get("RawTag").map(|s| strip_paths(s)) != Some("u64,Vec<u8>".to_string()) {
         p.push(("raw-tag".into(), format!("RawTag variant is {:?}", g.variants.get("RawTag"))));
     }
     if !g.raw_ctor_ok {
@@ -773,7 +802,7 @@ pub fn make_broken(rng: &mut Rng, base: &Decl, class: &str) -> Option<String> {
                     if rng.chance(1, 2) {
                         format!("{}{}", &src[..tpos], &src[tpos + needle_ty.len()..])
                     } else {
-                        format!("{}#[data_type(TagDataType::Date)] {}", &src[..tpos], &src[tpos + needle_ty.len()..])
+                        format!("{}#[data_type(TagDataType::Zzyzx9)] {}", &src[..tpos], &src[tpos + needle_ty.len()..])
                     }
                 }
                 _ => {
@@ -1039,7 +1068,9 @@ fn run(c: &mut Case) {
         }
         Ok(Ok((t, _lowered))) => {
             c.count("front_ends_compared");
-            if t != a_tokens {
+            // the same code, however each front-end spells its paths (the attribute form repeats the user's spelling of
+            // the data type, the easy form chooses its own)
+            if strip_paths(&t) != strip_paths(&a_tokens) {
                 let at = t.chars().zip(a_tokens.chars()).position(|(x, y)| x != y).unwrap_or(0);
                 let ctx = |s: &str| s.chars().skip(at.saturating_sub(60)).take(160).collect::<String>();
                 c.violation("C18/front-ends-differ", format!("the two front-ends generate different code (first difference at char {})", at), wit("token streams differ").set("attribute_form_code_near", J::s(ctx(&a_tokens))).set("easy_form_code_near", J::s(ctx(&t))));
@@ -1080,6 +1111,9 @@ fn run(c: &mut Case) {
         let r = guard(1 << 30, || derive_lib::expand_attribute_form(&src).map(|t| t.to_string()));
         c.eval();
         match r {
+            // a panicking proc macro is a compile error, which is all the statement asks for a broken declaration
+            // (a budget overrun is not a rejection)
+            Err(Caught::Panic(_)) => c.count("broken_rejected_by_macro_panic"),
             Err(cg) => c.violation(format!("C18/macro-{}/broken-{}", cg.sig(), class), format!("macro {} on a broken declaration", cg.text()), J::obj().set("declaration", J::s(src.clone()))),
             Ok(Err(_)) => c.count("broken_rejected_by_macro"),
             Ok(Ok(expanded)) => {
